@@ -27,11 +27,11 @@ ACTIONS = ("GetUdTyped", "NodeCall1", "NodeCall2", "Onboard", "Handshake", "GetD
 MODEL_BUGS = (("notweak", "AlteredFails"), ("dropfirst", "GenuineVerifies"), ("maxpages", "GenuineGathers"),
               ("swapmsg", "GenuineVerifies"), ("wrongtweak", "GenuineVerifies"), ("nobind", "AlteredFails"),
               ("nohealth", "AlteredFails"), ("udslice", "GenuineGathers"), ("noidcheck", "NodeBad"),
-              ("nostatus", "NodeBad"))
+              ("nostatus", "NodeBad"), ("derpad", "GenuineVerifies"))
 NEGATIVES = ("NeverVerifies", "NeverGatherFails", "NeverVerifyFails", "NeverLegacy", "NeverFourPages",
-             "NeverNodeOk", "NeverReorgOk", "NeverNodeFails", "NeverRootByUrl", "NeverRootUrlBad")
+             "NeverNodeOk", "NeverReorgOk", "NeverNodeFails", "NeverRootByUrl", "NeverRootUrlBad", "NeverShapedOk")
 TRACE_KEYS = ("id", "udsrc", "node", "node_at", "node_n", "node_url", "rootvia", "root_url", "http", "ud_sent",
-              "att_file", "contacted", "g_err", "v_err", "plat", "alt", "dev", "g_onboard", "g_attest", "gather", "file0", "reload0", "file",
+              "att_file", "contacted", "g_err", "v_err", "sigsite", "sigclass", "plat", "alt", "dev", "g_onboard", "g_attest", "gather", "file0", "reload0", "file",
               "reload", "reload_ok", "verify", "printed", "verify2", "printed2")
 
 
@@ -56,7 +56,7 @@ def _run_one(job):
     except BaseException as e:        # noqa: harness failure, reported as machinery error by the parent
         import traceback
         return i, None, {"harness_error": "%s: %s\n%s" % (type(e).__name__, e, traceback.format_exc()[-1500:])}
-    lite = {"exc": d["exc"], "applied": d["applied"], "faithful": d["faithful"],
+    lite = {"exc": d["exc"], "applied": d["applied"], "faithful": d["faithful"], "shapes": d.get("shapes", {}),
             "env_pages": d.get("env_pages"), "env_len": d.get("env_len"),
             "msg_requests": sum(1 for x in d.get("att_log", []) if x[1] == 0x02),
             "verify_stdout": d["stdout"].get("verify", "")[-1500:] if case.get("keep_stdout") else ""}
@@ -171,6 +171,9 @@ def random_case(rng):
         if site == "root":
             idx = rng.randint(1, 5)
     b = {"plat": plat, "framing": framing, "cfg": cfg, "alt": {"site": site, "idx": idx}, "net": net}
+    if rng.random() < 0.3:          # any alteration / network choice may meet any signature shape
+        shapes = attflow.SHAPES_SECP if plat == "ledger" else attflow.SHAPES_P256
+        b["shape"] = {"site": rng.choice(attflow.SIG_SITES[plat]), "cls": rng.choice(shapes)}
     c = attflow.concretise(b, rng)
     c["random"] = True
     return c
@@ -318,6 +321,10 @@ def run(ctx):
         "signature value, or of the root of trust (another key; a byte of x|y on Ledger, of TBS / signature "
         "on SGX). Framing bytes that nothing signs (page flags, length prefixes, signature_len, PEM armour, the "
         "unused third PEM certificate, the 04 prefix of the Ledger root key) are outside the property",
+        "signature shapes: every ECDSA signature of the genuine device / of the X.509 chain can be ground (fresh "
+        "nonces from the case's seeded generator, own arithmetic) to a class of byte lengths of r and s; Ledger "
+        "(secp256k1) signatures are low-s only - libsecp256k1, which the verifier uses, rejects high-s by design "
+        "and BOLOS is taken to normalise s",
         "UD value: typed (--attudsource <64 hex digits>) or taken from a scripted Rootstock node standing in for "
         "`requests` inside admin.rsk_client (harness/fakehttp.py; no real network); SGX root of trust: file or "
         "URL served by the same fake layer. Every HTTP request the tools make is recorded and judged",
@@ -435,6 +442,17 @@ def run(ctx):
                     c["alt"].get("how")) for c in everything}
     res.coverage["boundary_content_genuine_devices"] = len(bcases)
     res.coverage["content_profiles"] = list(attflow.PROFILES)
+    ground, seen = {}, {}
+    for (o, d), c in zip(allres, everything):
+        if c.get("sigshape"):
+            k = "%s %s:%s" % (c["plat"], c["sigshape"]["site"], c["sigshape"]["cls"])
+            ground[k] = ground.get(k, 0) + 1
+        for site, shp in d["shapes"].items():
+            for comp, cl in zip("rs", shp.split("/")):
+                k = "%s %s %s=%s" % (c["plat"], site, comp, cl)
+                seen[k] = seen.get(k, 0) + 1
+    res.coverage["signature_shapes_ground"] = dict(sorted(ground.items()))
+    res.coverage["signature_component_classes_seen"] = dict(sorted(seen.items()))
     res.coverage["node_runs"] = sum(1 for c in everything if c.get("udsrc") == "node")
     res.coverage["node_behaviours_hit"] = sorted({"%s@%d" % (c["node"], c["node_at"]) for c in everything
                                                   if c.get("udsrc") == "node"})
